@@ -15,6 +15,7 @@ Core Lean only.
 import CBV.Model.Common
 import CBV.Model.C15
 import CBV.Gen.Tables
+import CBV.Gen.TC14
 
 namespace CBV.C14
 open CBV
